@@ -195,6 +195,25 @@ impl C16 {
             }
             _ => {}
         }
+        if sc.get("iso") >= 2 {
+            // isolation runs: a program that looks at everything position- and model-dependent the machine offers -
+            // the floating bus, the ULA port, the AY and joystick ports - and keeps what it saw in RAM
+            let prog = [
+                0xDB, 0xFF, 0x77, 0x2C, // IN A,(FF) ; LD (HL),A ; INC L
+                0xDB, 0xFE, 0xAE, 0x77, 0x2C, // IN A,(FE) ; XOR (HL) ; LD (HL),A ; INC L
+                0x01, 0xFD, 0xFF, 0xED, 0x78, 0x86, 0x77, 0x2C, // LD BC,FFFD ; IN A,(C) ; ADD A,(HL) ; LD (HL),A ; INC L
+                0xDB, 0x1F, 0x86, 0x77, 0x2C, // IN A,(1F) ; ADD A,(HL) ; LD (HL),A ; INC L
+                0x3A, 0x00, 0x40, 0x3C, 0x32, 0x00, 0x40, // LD A,(4000) ; INC A ; LD (4000),A  (contended access)
+                0x18, 0xE1, // JR to the start
+            ];
+            write_mem(&mut e, 0x8000, &prog);
+            let mut st = crate::cpustate::CpuState::default();
+            st.pc = 0x8000;
+            st.sp = 0x8F00;
+            st.hl = 0x9000;
+            st.im = 1;
+            st.to_impl(e.verif_cpu());
+        }
         if d.r0 > 0 {
             e.verif_set_frame_clocks(d.r0.min(cfg.frame_len() - 1));
         }
@@ -378,7 +397,7 @@ impl Property for C16 {
         vec!["host inputs are applied only at frame boundaries (as the property states)", "audio streams are compared only between drivings that drain at every frame boundary"]
     }
     fn expected_probes(&self) -> Vec<&'static str> {
-        vec!["cmp_framecount_n", "cmp_max_mode", "cmp_breakpoints", "cmp_sound_off", "cmp_asset_kind", "cmp_repeat", "audio_compared", "loader_program", "sound_toggled_by_setter", "fastload_set_after_construction", "trap_at_frame_end", "tape_longer_than_256k", "host_without_debug_interface"]
+        vec!["cmp_framecount_n", "cmp_max_mode", "cmp_breakpoints", "cmp_sound_off", "cmp_asset_kind", "cmp_repeat", "audio_compared", "loader_program", "sound_toggled_by_setter", "fastload_set_after_construction", "trap_at_frame_end", "tape_longer_than_256k", "host_without_debug_interface", "instance_isolation_in_fresh_processes"]
     }
 
     fn gen(&self, rng: &mut Rng, tier: Tier, _idx: u64) -> Scenario {
@@ -448,6 +467,11 @@ impl Property for C16 {
             sc.op("ev", &[0, 11, 0, 0]);
             sc.op("ev", &[rng.range(0, k - 1), 7, 0, 0]);
         }
+        if _idx % 40 == 13 {
+            sc.set("iso", 1);
+            sc.set("content", 1);
+            sc.set("big", 0);
+        }
         // drivings: baseline first
         sc.op("drive", &[0, 0, 0, 0, 1, 0, 1]);
         let n_dr = rng.range(2, 4);
@@ -468,6 +492,46 @@ impl Property for C16 {
     }
 
     fn exec(&self, sc: &Scenario, ctx: &mut RunCtx) -> Result<(), Fail> {
+        // ---- independence of other emulator instances in the same process. Anything process-wide (a lazily built
+        // static table, a cache keyed too coarsely) is invisible from inside a worker that has run hundreds of
+        // machines of both models: the scenario is executed in two fresh processes - alone, and after a machine of
+        // the *other* model has run a program of its own - and the two traces must be identical.
+        match sc.get("iso") {
+            1 => {
+                ctx.probe("instance_isolation_in_fresh_processes");
+                let mut a = sc.clone();
+                a.set("iso", 2);
+                let mut b = sc.clone();
+                b.set("iso", 3);
+                let ra = crate::runner::run_in_fresh_process("C16", &a).map_err(|x| Fail::new("C16.harness_fresh_process", "", x))?;
+                let rb = crate::runner::run_in_fresh_process("C16", &b).map_err(|x| Fail::new("C16.harness_fresh_process", "", x))?;
+                if ra.traces.is_empty() || ra.traces != rb.traces {
+                    return Err(Fail::new(
+                        "C16.instance_isolation",
+                        &format!("machine={}", if sc.get("m128") != 0 { "128k" } else { "48k" }),
+                        format!("the same scenario run alone in a fresh process and run after an emulator of the other model had been used in that process gives different traces: {:?} vs {:?}", ra.traces, rb.traces),
+                    ));
+                }
+                ctx.units += 1;
+                return Ok(());
+            }
+            role @ (2 | 3) => {
+                let base = Driving { mode: 0, p1: 0, p2: 0, asset_kind: 0, sound: true, drain: 0, seed: 1, r0: 0, calib: false };
+                if role == 3 {
+                    let mut other = sc.clone();
+                    other.set("m128", (sc.get("m128") == 0) as i64);
+                    other.set("content", 1);
+                    other.set("content_seed", sc.get("content_seed") ^ 0x5A5A);
+                    other.set("frames", 4);
+                    other.ops.retain(|o| o.k != "ev");
+                    let _ = self.run_driving(&other, &base, ctx)?;
+                }
+                let t = self.run_driving(sc, &base, ctx)?;
+                println!("TRACE {:?} {:?} {} {:016x}", t.hashes, t.audio, t.samples, t.ay_final);
+                return Ok(());
+            }
+            _ => {}
+        }
         let drives: Vec<Driving> = sc
             .ops
             .iter()
